@@ -103,46 +103,75 @@ func ruleC07Order(e *Env) {
 	{
 		var wraps []string
 		n := 0
+		isYear := func(v ssa.Value) bool {
+			switch x := v.(type) {
+			case *ssa.UnOp:
+				fa, ok := x.X.(*ssa.FieldAddr)
+				return ok && x.Op == token.MUL && fieldNameOf(fa.X.Type(), fa.Field) == "year"
+			case *ssa.Field:
+				return fieldNameOf(x.X.Type(), x.Field) == "year"
+			}
+			return false
+		}
+		// every arithmetic operation on a value read from the year field, directly or through conversions, in the
+		// accessors that report the calendar year and whatever they call (comparisons, stores and calls are not
+		// arithmetic; MarshalBinary's modular year+1 is undone modulo 2^32 by the reader and never reported: C11)
+		reporters := map[*ssa.Function]bool{}
 		for _, name := range []string{"Year", "Date", "Time"} {
-			fn := e.P.Method("date", "Date", name)
-			if fn == nil {
-				continue
+			if fn := e.P.Method("date", "Date", name); fn != nil {
+				for g := range e.C.Reachable(fn) {
+					reporters[g] = true
+				}
+			}
+		}
+		for _, fn := range flow.SortedFuncs(reporters) {
+			seen := map[ssa.Value]bool{}
+			var follow func(v ssa.Value)
+			follow = func(v ssa.Value) {
+				if seen[v] || v.Referrers() == nil {
+					return
+				}
+				seen[v] = true
+				for _, r := range *v.Referrers() {
+					switch x := r.(type) {
+					case *ssa.Convert:
+						follow(x)
+					case *ssa.ChangeType:
+						follow(x)
+					case *ssa.BinOp:
+						switch x.Op {
+						case token.ADD, token.SUB, token.MUL, token.SHL:
+							n++
+							if w, ok := pred.IntWidth(x.Type()); ok && w <= 32 {
+								wraps = append(wraps, fmt.Sprintf("%s (%s)", flow.FnName(fn), e.posOf(x)))
+							}
+						}
+					case *ssa.UnOp:
+						if x.Op == token.SUB {
+							n++
+							if w, ok := pred.IntWidth(x.Type()); ok && w <= 32 {
+								wraps = append(wraps, fmt.Sprintf("%s (%s)", flow.FnName(fn), e.posOf(x)))
+							}
+						}
+					}
+				}
 			}
 			for _, b := range fn.Blocks {
 				for _, in := range b.Instrs {
-					bo, ok := in.(*ssa.BinOp)
-					if !ok || bo.Op != token.ADD {
-						continue
-					}
-					isYear := func(v ssa.Value) bool {
-						v = flow.StripConv(v)
-						switch x := v.(type) {
-						case *ssa.UnOp:
-							fa, ok := x.X.(*ssa.FieldAddr)
-							return ok && x.Op == token.MUL && fieldNameOf(fa.X.Type(), fa.Field) == "year"
-						case *ssa.Field:
-							return fieldNameOf(x.X.Type(), x.Field) == "year"
-						}
-						return false
-					}
-					if !isYear(bo.X) {
-						continue
-					}
-					n++
-					if w, ok := pred.IntWidth(bo.Type()); ok && w <= 32 {
-						wraps = append(wraps, fmt.Sprintf("%s (%s)", name, e.posOf(bo)))
+					if v, ok := in.(ssa.Value); ok && isYear(v) {
+						follow(v)
 					}
 				}
 			}
 		}
 		switch {
 		case n == 0:
-			e.S.Unk(rule, "date.Date", "year wrap", "no read of the year field of the form field + 1 found in Year / Date / Time", "")
+			e.S.Unk(rule, "date.Date", "year wrap", "no arithmetic on a value read from the year field found in Year / Date / Time or their callees (the accessors add 1)", "")
 		case len(wraps) > 0:
 			e.S.Bad(rule, "date.Date", "year wrap", "the calendar year is read as year+1 computed in 32 bits, the width of the field ("+strings.Join(wraps, ", ")+"; int is that narrow on a 32-bit target): the date stored with year field MaxInt32 reports year −2147483648 (String, Time, Year) but Before/After rank it by the field, above every other date", "",
 				"a := date.New(math.MinInt32, 1, 1); b := date.New(2000, 1, 1): a.Time().Before(b.Time()) but a.After(b)")
 		default:
-			e.S.Ok(rule, "date.Date", "year wrap", fmt.Sprintf("%d reads of the year add 1 after widening: ordering by the stored fields is ordering by the reported dates", n), "")
+			e.S.Ok(rule, "date.Date", "year wrap", fmt.Sprintf("%d arithmetic operation(s) on values read from the year field in Year / Date / Time and their callees, each after widening above 32 bits: ordering by the stored fields is ordering by the reported dates", n), "")
 		}
 	}
 	// IsZero ⇔ all fields zero
@@ -509,6 +538,8 @@ func ruleFromTime(e *Env, rule string, a *dateAbs) {
 					e.S.Unk(rule, site, c2, fmt.Sprintf("stored value %v is not of the form component ± const", fields[k]), e.Pos(fn))
 				case cn.Root != comp(k) || cn.C != -1:
 					e.S.Bad(rule, site, c2, fmt.Sprintf("%s := %v; the zero-based encoding requires component #%d of t.Date() (t itself, in its own location) minus one", name, cn, k), e.Pos(fn), "")
+				case cn.Width != 0 && cn.Width < []int{32, 8, 8}[k]:
+					e.S.Bad(rule, site, c2, fmt.Sprintf("%s := %v: on its way into the %d-bit field the value passes through a %d-bit type and loses its upper bits", name, cn, []int{32, 8, 8}[k], cn.Width), e.Pos(fn), "")
 				default:
 					e.S.Ok(rule, site, c2, fmt.Sprintf("%s := %v", name, cn), e.Pos(fn))
 				}
